@@ -29,7 +29,7 @@ ReqBody(L) == [i \in 1..L |-> (i * 3) % 256]
 ValA(L) == [i \in 1..(4 + (L % 7)) |-> 160 + i]
 ValB(L) == [i \in 1..(4 + (L % 7)) |-> 176 + i]
 Iv(k) == [i \in 1..16 |-> (i * 13 + k * 29 + Seed) % 256]
-Msg(val) == B(MsgRspBytes(129, NetFn + 1, 0, 1, 0, Cmd, 0, val))
+Msg(val) == MsgRspE(EchoS, NetFn + 1, 0, Cmd, 0, val)
 AuthenticA(L) == SessPacket(S, LE32s(1), Msg(ValA(L)), Iv(1))
 AuthenticB(L) == SessPacket(S, LE32s(2), Msg(ValB(L)), Iv(2))
 \* total length of an authentic packet for a message of n bytes
@@ -128,7 +128,7 @@ Pad16Set ==
   IN { Script("pad16-tolerated", L, Pkt(192, Var("sidM"), EncPayload(msg, [i \in 1..16 |-> i] \o <<16>>), GoodAuth), "pad16-tolerated", TRUE) }
      \cup { Script("pad16-pos" \o ToString(j), L, Pkt(192, Var("sidM"), EncPayload(msg, pad(j)), GoodAuth), "pad16-pos" \o ToString(j), FALSE) : j \in 1..16 }
 \* the convenience methods of a session (the two that also exist outside a session): forged first, authentic second
-GuidMsg(v) == B(MsgRspBytes(129, 7, 0, 1, 0, 55, 0, [i \in 1..16 |-> (v + i) % 256]))
+GuidMsg(v) == MsgRspE(EchoS, 7, 0, 55, 0, [i \in 1..16 |-> (v + i) % 256])
 MethodCall(kind) ==
   [k |-> "call", api |-> "Method", method |-> "GetSystemGUID", on |-> "", margs |-> <<>>, label |-> kind, target |-> "sess",
    exp |-> [prop |-> "C04", outcome |-> "oneofOrError", values |-> << [i \in 1..16 |-> (176 + i) % 256] >>]]
